@@ -689,6 +689,10 @@ Definition specs_ok (t : list (str * str)) : bool :=
   C16.Model.list_eqb (fun a b => seq_eqb (fst a) (fst b) && seq_eqb (snd a) (snd b)) t expected_specs
   && C16.Model.list_eqb seq_eqb (map (fun wc => join [32] (fst wc)) commands) (map fst expected_specs).
 
+(* the pattern of ircutils.userHostmaskRe that C16.Model.is_user_hostmask mirrors:  ^\S+!\S+@\S+$  *)
+Definition expected_hostmask_re : str := [94; 92; 83; 43; 33; 92; 83; 43; 64; 92; 83; 43; 36].
+Definition hostmask_re_ok (t : str) : bool := seq_eqb t expected_hostmask_re.
+
 (* longest-prefix match of the command words (the generator only uses canonical spellings) *)
 Fixpoint strip_words (ws toks : list str) : option (list str) :=
   match ws, toks with
